@@ -31,6 +31,15 @@ Typed1 == {[ty |-> "intPair", data |-> <<42, 0, 0, 1>>]}
 Typed2 == {[ty |-> "doubleBox", data |-> <<42, 0, 255, 1>>], [ty |-> "doubleBox", data |-> <<7, 8, 9, 10>>]}
 DVals1 == {I1, B1, S1, Ob("intPair", 1, 2), Ob("boolean_flag", 2, 1), Ob("doubleBox", 3, 3), Ob("TypeA", 1, 1), Ob("unsigned int_t", 2, 2),
            Ob("const char*Name", 1, 3), Ob("void*Handle", 2, 3), Ob("long int64", 3, 1)}
+\* doubles: expectations with tolerance 0 (exact), the default tolerance, a small positive, a negative and a -inf tolerance,
+\* and actual values equal to the expected one, off by 1 unit (inside the default tolerance), by DefaultTolQ and by
+\* DefaultTolQ + 1 units (the edge of the default tolerance); an actual value's own tolerance plays no role
+Dbl(q, tol) == [t |-> "double", v |-> XFin(q), tol |-> tol]
+DTols == {XFin(0), XFin(DefaultTolQ), XFin(1), XFin(0 - 1), XFin(0 - 8), XInf(TRUE)}
+ValsDblExp == { Dbl(1024, tol) : tol \in DTols }
+ValsDblAct == { Dbl(q, XFin(DefaultTolQ)) : q \in {1024, 1025, 1023, 1024 + DefaultTolQ, 1024 + DefaultTolQ + 1, 1024 - DefaultTolQ - 1} }
+ValsDbl == ValsDblExp \cup ValsDblAct
+ValsDblSmall == { Dbl(1024, tol) : tol \in {XFin(0), XFin(0 - 1)} } \cup { Dbl(q, XFin(DefaultTolQ)) : q \in {1024, 1025, 1030} }
 NoKeys == {}
 Keys2 == {"k", "cfg"}
 ScopesG == {""}
